@@ -445,6 +445,13 @@ def exec_interact(rig, steps, tag0, tamper=None):
     return found
 
 
+def _known(job, clause, detail):
+    """does this failing step match a recorded known finding?  (such steps do not count towards
+    giving a walk / a transport up, so that recording a finding does not cost coverage)"""
+    f = common.Failure(clause, None, detail, signature(dict(job, kind=job.get('kind')), {'detail': detail}))
+    return any(common.matches(k, f) for k in job.get('known', ()))
+
+
 def run_walk(job):
     """executed in a worker: one fresh real object, one walk"""
     transport, init, steps, widx, workdir = job['transport'], job['init'], job['steps'], job['widx'], job['work']
@@ -452,7 +459,7 @@ def run_walk(job):
     rig = None
     try:
         rig = Rig(transport, init['mode'], init['logcfg'], workdir, variant=widx)
-        out['kind'] = rig.kind
+        out['kind'] = job['kind'] = rig.kind
         i = 0
         nfail = 0
         while i < len(steps) and nfail < 6:
@@ -478,7 +485,7 @@ def run_walk(job):
                 at = i
                 i += 1
             real = [f for f in found if f[0].startswith('C')]
-            own = [f for f in real if f[0].startswith(job.get('pid', 'C'))]
+            own = [f for f in real if f[0].startswith(job.get('pid', 'C')) and not _known(job, f[0], f[1])]
             if real:
                 # a failing real-process step is confirmed on a fresh object: same prefix, twice more
                 # (only for the property being checked; the other property's clauses are informational here)
@@ -582,7 +589,7 @@ def run(ctx):
     for tr, (res, g) in zip(TRANSPORTS, graphs):
         walks = plan_walks(g, 30 if quick else 60, rng)
         for widx, (i0, walk) in enumerate(walks):
-            jobs.append({'transport': tr, 'init': slim(g.nodes[i0]), 'widx': widx, 'work': ctx.work, 'pid': pid,
+            jobs.append({'transport': tr, 'init': slim(g.nodes[i0]), 'widx': widx, 'work': ctx.work, 'pid': pid, 'known': ctx.findings,
                          'steps': [(lab, slim(g.nodes[d])) for lab, d in walk]})
     order = list(range(len(jobs)))
     rng.shuffle(order)
@@ -596,7 +603,8 @@ def run(ctx):
             outs[i] = o
         nf = {}
         for i in order[:cut]:
-            nf[jobs[i]['transport']] = nf.get(jobs[i]['transport'], 0) + sum(1 for f in outs[i]['fails'] if f['clause'].startswith(pid))
+            nf[jobs[i]['transport']] = nf.get(jobs[i]['transport'], 0) + sum(
+                1 for f in outs[i]['fails'] if f['clause'].startswith(pid) and not _known(dict(jobs[i], kind=outs[i]['kind']), f['clause'], f['detail']))
         broken = set(tr for tr, n in nf.items() if n >= 100)
         later = [i for i in order[cut:] if jobs[i]['transport'] not in broken]
         for i, o in zip(later, pool.map(run_walk, [jobs[i] for i in later], chunksize=4)):
